@@ -10,7 +10,7 @@ L1_NOTE = "Seam L1: the real leptos_i18n_parser::parse_locales run on project di
 CLAIMED = {
     "C01": (
         "bounded exhaustive enumeration of value forests executed on the real parser (L1) and through generated crates (L3), compared with a reference renderer",
-        "Every value forest over Text/Var/Comp up to the node bound, every whitespace combination inside tags and variables, literal segments made of white space only, the value kinds (incl. references to a value that holds a reference) under every inherits map of a four-locale set declared in every order, every payload pair next to every delimiter, all literal-type pairs, in three containers (top level, nested subkeys, namespaces) is parsed by the real parse_locales and its tree evaluated the way generated code reads it; the result must equal the reference rendering of the AST the files were generated from.",
+        "Every value forest over Text/Var/Comp up to the node bound, every whitespace combination inside tags and variables, literal segments made of white space only, numbers and booleans taken in through references, the value kinds (incl. references to a value that holds a reference) under every inherits map of a four-locale set declared in every order, every payload pair next to every delimiter, all literal-type pairs, in three containers (top level, nested subkeys, namespaces) is parsed by the real parse_locales and its tree evaluated the way generated code reads it; the result must equal the reference rendering of the AST the files were generated from.",
         L1_NOTE + " Text alphabet excludes lone '<', '{{', '$t(' (no documented escape).",
         "DESIGN.md §3 C01",
     ),
@@ -22,7 +22,7 @@ CLAIMED = {
     ),
     "C04": (
         "exhaustive enumeration of range declarations x counts (all 256 for i8/u8) on the real loader (L1), in generated match arms of probe crates (L3) and through the real code generator (L2), against an independent spec parser + Rust comparison semantics",
-        "Every 1- and 2-branch (thorough: 3-branch) declaration over the spec alphabet for i8/u8 is evaluated for all 256 counts from the parsed Range<T> structures and selected at parse time through $t(r,{count:n}); wider integer types and floats are covered on boundary neighbourhoods and extremes; declarations in which two branches share one value; float ranges with counts written as JSON integers (negative ones too); three- and four-level reference chains in which a middle key renames the count and outer keys pass an unrelated `count` must keep the range on its renamed count; declarations the statement rejects must be errors, a literal count no branch contains must be an error - never a panic or a wrong branch.",
+        "Every 1- and 2-branch (thorough: 3-branch) declaration over the spec alphabet for i8/u8 is evaluated for all 256 counts from the parsed Range<T> structures and selected at parse time through $t(r,{count:n}); wider integer types and floats are covered on boundary neighbourhoods and extremes; declarations in which two branches share one value; counts just outside the count type (rejected, never wrapped); float ranges with counts written as JSON integers (negative ones too); three- and four-level reference chains in which a middle key renames the count and outer keys pass an unrelated `count` must keep the range on its renamed count; declarations the statement rejects must be errors, a literal count no branch contains must be an error - never a panic or a wrong branch.",
         L1_NOTE + " Rust's FromStr/PartialOrd define what bounds mean. Empty/inverted ranges may be rejected or accepted.",
         "DESIGN.md §3 C04",
     ),
@@ -40,7 +40,7 @@ CLAIMED = {
     ),
     "C07": (
         "exhaustive enumeration of per-locale key-set patterns x inherits x suppress_key_warnings build on the real loader (L1) against an exact-multiset diagnostics model, plus positive/negative compile probes of the generated key set (L3)",
-        "Every combination of presence/null/absence/group-value swap over a nested key universe, plural states and six surplus shapes for a non-default locale (thorough: a third locale with every inherits map), with and without namespaces, the locales declared in every order, in the normal and the suppress_key_warnings build: the multiset of MissingKey/SurplusKey/UnusedForm diagnostics, the accessible key set, SubKeyMissmatch errors and every rendered key must be exactly what the statement says.",
+        "Every combination of presence/null/absence/group-value swap over a nested key universe, plural states and eight surplus shapes (incl. a surplus plural with a form its locale never selects) for a non-default locale (thorough: a third locale with every inherits map), with and without namespaces, the locales declared in every order, in the normal and the suppress_key_warnings build: the multiset of MissingKey/SurplusKey/UnusedForm diagnostics, the accessible key set, SubKeyMissmatch errors and every rendered key must be exactly what the statement says.",
         L1_NOTE,
         "DESIGN.md §3 C07",
     ),
@@ -52,7 +52,7 @@ CLAIMED = {
     ),
     "C09": (
         "exhaustive enumeration of token strings (<= 5/6 tokens), range specs, JSON shapes, foreign-key forms, inherits loops, file contents and nesting depths executed on the real loader (L1), the real code generator load_locales() (L2) and the build helper (vbuild) under catch_unwind + watchdog + subprocess isolation",
-        "All strings over a 21-token adversarial alphabet up to the bound, one string per character-class edge (C0 / DEL / C1 controls, separators, BMP and astral edges) in six contexts, go through ParsedValue::new and, for shorter ones, through real files and the whole loader - at a plain key and, for the reference forms and short strings, in 9 positions (plural _one / _other / middle form, ordinal _other, range branch and fallback, subkey, non-default locale, reference argument), without and with namespaces; plus all range-count token strings, JSON number classes (as range bounds and as literal counts handed to a range and to a plural), small JSON shapes in value position, foreign-key target/argument/position products, whole-file contents, missing project pieces and 1..2000 deep/long constructs in subprocesses: every outcome must be Ok or a non-empty Err - no panic, crash, or hang.",
+        "All strings over a 21-token adversarial alphabet up to the bound, one string per character-class edge (C0 / DEL / C1 controls, separators, BMP and astral edges) in six contexts, go through ParsedValue::new and, for shorter ones, through real files and the whole loader - at a plain key and, for the reference forms and short strings, in 9 positions (plural _one / _other / middle form, ordinal _other, range branch and fallback, subkey, non-default locale, reference argument), without and with namespaces; plus all range-count token strings, JSON number classes (as range bounds and as literal counts handed to a range and to a plural), small JSON shapes in value position, foreign-key target/argument/position products, whole-file contents, missing project pieces, 18 whole files around plural merging and repeated keys (through the loader, the code generator and the build helper) and 1..2000 deep/long constructs in subprocesses: every outcome must be Ok or a non-empty Err - no panic, crash, or hang.",
         L1_NOTE + " Depth bound 2000 on an 8 MiB stack.",
         "DESIGN.md §3 C09",
     ),
@@ -88,25 +88,25 @@ CLAIMED = {
     ),
     "C16": (
         "stateless exhaustive exploration of operation histories (depth <= 4/5) over a tree of contexts, replayed on the real reactive runtime under a harness-owned deterministic executor",
-        "Every history of set_locale / set_locale_untracked / set-through-scoped-view / set through a handle looked up with use_i18n() in the context's owner / sub-context creation (none, constant, wired initial locale; directly or through the generated <I18nSubContextProvider> component placed in the parent's owner) / wired-signal writes / accessor creation / poll up to the depth bound is replayed from scratch on a fresh Owner; after every step every context, use_i18n() in its owner, a fresh scoped view and every accessor created earlier (t!, t_string!, tu_string!, t_display!, scoped) is read and compared with a context -> last-locale map; subscribers created earlier (a Memo over t_string! and an Effect writing what it sees into a sink; one Memo per tracked accessor - t_string!, t_display!, t!, scoped forms, t_format_string!, t_format_display!, get_locale - holding it alone) must hold the last locale after every tracked write (the effect once effects ran; after an untracked write they may lag until the next tracked one); replay determinism is self-checked.",
+        "Every history of set_locale / set_locale_untracked / set-through-scoped-view / set through a handle looked up with use_i18n() in the context's owner / sub-context creation (none, constant, wired initial locale; directly, through the generated <I18nSubContextProvider> component placed in the parent's owner, or with provide_i18n_subcontext) / wired-signal writes / accessor creation / poll up to the depth bound is replayed from scratch on a fresh Owner; after every step every context, use_i18n() in its owner, a fresh scoped view and every accessor created earlier (t!, t_string!, tu_string!, t_display!, scoped) is read and compared with a context -> last-locale map; subscribers created earlier (a Memo over t_string! and an Effect writing what it sees into a sink; one Memo per tracked accessor - t_string!, t_display!, t!, scoped forms, t_format_string!, t_format_display!, get_locale - holding it alone) must hold the last locale after every tracked write (the effect once effects ran; after an untracked write they may lag until the next tracked one); replay determinism is self-checked.",
         "Seam RT (ssr, reactive_graph/effects). All tasks, including those leptos hands to the thread pool, run on the calling thread's queue when the harness polls. Wired-signal window: either value admitted until the next poll.",
         "DESIGN.md §3 C16",
     ),
     "C14": (
         "explicit-state exploration of (URL, locale) under locale-switch sequences plus exhaustive single calls, on the real path functions (verif_hooks feature) and on a natively built <I18nRoute> (generate_routes / match_nested over a closed path universe, plain leptos_router as reference)",
-        "For 7 locale sets (names that are prefixes of each other and of path words), 6 base-path spellings and a route table with static / param / optional / splat / localized segments: get_locale_from_path on every short path (words in several letter cases) - under the base, under near misses of it (segments glued, extended, missing; 2- and 3-segment bases) and elsewhere - against a whole-segment oracle, and a BFS over every sequence of <= 3 (thorough 4) locale switches from every page URL in every locale (with/without query, fragment, route table), each step calling the real get_new_path: only the prefix and the localized segments may change, A->B->A returns the original URL, the locale read back is the one switched to, and the real route objects match the URL before and after as the same route with the same parameters. The real <I18nRoute> (children written with i18n_path!) is built natively per locale set: its generate_routes() must be the N+1 families, the segment tables it stores (used for the switches above) the per-locale tables, and match_nested() on every path of <= 3-4 segments over locale names, localized words, glued / truncated / upper-cased names must read a locale only from a first segment equal to a locale name.",
+        "For 7 locale sets (names that are prefixes of each other and of path words), 6 base-path spellings and a route table with static / param / optional / splat / localized segments: get_locale_from_path on every short path (words in several letter cases) - under the base, under near misses of it (segments glued, extended, missing; 2- and 3-segment bases) and elsewhere - against a whole-segment oracle, and the server-side redirect of unprefixed requests (the matched view of the real <I18nRoute> chosen under a RequestUrl and a recording redirect hook), and a BFS over every sequence of <= 3 (thorough 4) locale switches from every page URL in every locale (with/without query, fragment, route table), each step calling the real get_new_path: only the prefix and the localized segments may change, A->B->A returns the original URL, the locale read back is the one switched to, and the real route objects match the URL before and after as the same route with the same parameters. The real <I18nRoute> (children written with i18n_path!) is built natively per locale set: its generate_routes() must be the N+1 families, the segment tables it stores (used for the switches above) the per-locale tables, and match_nested() on every path of <= 3-4 segments over locale names, localized words, glued / truncated / upper-cased names must read a locale only from a first segment equal to a locale name.",
         "Seam RT via cargo feature verif_hooks (thin re-exports of the private functions; named in the property's hook_needed). The browser glue (effects, navigate, popstate, view_wrapper) needs web_sys and is modelled by the driver. Plain leptos_router (the same table with static segments in one locale's words) is the trusted reference for what a route table matches.",
         "DESIGN.md §3 C14",
     ),
     "C20": (
         "exhaustive enumeration of (formatter/plural family, placement) singles and pairs on the real build helper against a used-family predicate computed from the AST",
-        "Each of 9 families (cardinal / plain / ordinal plurals, 6 formatters) at each of 9 placements (default locale, non-default only, next to a non-string literal in the other locale, nested subkeys, range branch, plural form, only as a foreign-key target, second namespace, unreachable surplus key, none), namespaced or not, over 5 locale sets (incl. names with variant subtags), plus pairs of placements: the characteristic ICU data key of a family must be requested iff a reachable key uses the family in some locale (plural rules: the key of the kind in use - cardinal or ordinal - is required, no plural at all forbids both); reported locales, language identifiers, namespaces and file list must be exactly the configured ones.",
+        "Each of 11 families (cardinal / plain / ordinal plurals, plurals whose count carries a number / currency formatter, 6 formatters) at each of 9 placements (default locale, non-default only, next to a non-string literal in the other locale, nested subkeys, range branch, plural form, only as a foreign-key target, second namespace, unreachable surplus key, none), namespaced or not, over 5 locale sets (incl. names with variant subtags), plus pairs of placements: the characteristic ICU data key of a family must be requested iff a reachable key uses the family in some locale (plural rules: the key of the kind in use - cardinal or ordinal - is required, no plural at all forbids both); reported locales, language identifiers, namespaces and file list must be exactly the configured ones.",
         "Seam: leptos_i18n_build::TranslationsInfos linked natively (parser built with `quote` as in a user's host build). The provider generation itself (DatagenProvider::new_latest_tested) needs a CLDR download and is not run: the request is what is checked.",
         "DESIGN.md §3 C20",
     ),
     "C02": (
         "exhaustive enumeration of accessor flavours x scoping prefixes x locales x counts over a project holding every key kind, executed in generated probe crates against the reference renderer",
-        "A project with one key of every kind at depth 1 and 3 in two namespaces and three locales (inheritance, explicit nulls, gaps) is compiled through the real proc-macro; every key is read through td/t/tu x view/string/display, through scope_locale!/scope_i18n! at every proper prefix (one step and chained) and use_i18n_scoped!, and the const accessor chain, with counts {0,1,2,5}, t! / tu! views built under another locale and rendered after the context moved, and count-driven views whose count closure changes its value after the view closure was built / called once; the ranges of the project have overlapping branches (an exact value and an alternative list written after the bounds containing them: the view and the string back-ends generate their branch chains separately); every record must equal the reference rendering, hence all flavours agree; in a second project (en, bn, sv) keys carrying number formatters are read through all 9 flavours with positive / negative / zero / fractional / integer-typed values and must equal direct ICU4X calls.",
+        "A project with one key of every kind at depth 1 and 3 in two namespaces and three locales (inheritance, explicit nulls, gaps) is compiled through the real proc-macro; every key is read through td/t/tu x view/string/display, through scope_locale!/scope_i18n! at every proper prefix (one step and chained) and use_i18n_scoped!, and the const accessor chain, with counts {0,1,2,5}, t! / tu! views built under another locale and rendered after the context moved, and count-driven views whose count closure changes its value after the view closure was built / called once; the ranges of the project have overlapping branches (an exact value and an alternative list written after the bounds containing them: the view and the string back-ends generate their branch chains separately); every record must equal the reference rendering, hence all flavours agree; in a second project (en, bn, sv) keys carrying number formatters are read through all 9 flavours with positive / negative / zero / fractional / integer-typed values, and in a third (en, fr, de, bn) date / time / datetime / list / currency formatters: each must equal the direct ICU4X call.",
         "Seam L3: only documented macros inside the probe; context flavours run on a natively created I18nContext (ssr). Quick tier thins view flavours under scoping.",
         "DESIGN.md §3 C02",
     ),
